@@ -55,15 +55,24 @@ func (f *Rem) Call(s *slip.Scope, args slip.List, depth int) (result slip.Object
 	switch num := n.(type) {
 	case slip.Fixnum:
 		div := int64(d.(slip.Fixnum))
+		if div == 0 {
+			slip.DivisionByZeroPanic(s, depth, slip.Symbol("rem"), args, "divide by zero")
+		}
 		m := int64(num) % div
 		result = slip.Fixnum(m)
 	case *slip.Bignum:
 		div := (*big.Int)(d.(*slip.Bignum))
+		if div.Sign() == 0 {
+			slip.DivisionByZeroPanic(s, depth, slip.Symbol("rem"), args, "divide by zero")
+		}
 		var z big.Int
 		_ = z.Rem((*big.Int)(num), div)
 		result = (*slip.Bignum)(&z)
 	case slip.Real:
 		div := (d.(slip.Real)).RealValue()
+		if div == 0.0 {
+			slip.DivisionByZeroPanic(s, depth, slip.Symbol("rem"), args, "divide by zero")
+		}
 		nf := num.RealValue()
 		m := math.Remainder(nf, div)
 		result = slip.DoubleFloat(m)
